@@ -48,6 +48,9 @@ pub struct IoCounters {
     pub stdout_eintr: u64,
     pub stdout_failed_writes: u64,
     pub stderr_writes: u64,
+    /// Failed writes to stdout by the thread whose write failed first (the producer of the output).
+    pub stdout_failed_writes_first_thread: u64,
+    pub first_failing_tid: Option<usize>,
 }
 
 #[derive(Default)]
@@ -322,6 +325,13 @@ pub fn on_write(fd: i32, data: &[u8]) -> WriteAction {
         let room = limit.saturating_sub(st.stdout_accepted) as usize;
         if room == 0 && n > 0 {
             st.counters.stdout_failed_writes += 1;
+            let tid = crate::sched::current_tid();
+            if st.counters.first_failing_tid.is_none() {
+                st.counters.first_failing_tid = tid;
+            }
+            if tid.is_some() && tid == st.counters.first_failing_tid {
+                st.counters.stdout_failed_writes_first_thread += 1;
+            }
             let e = if st.plan.stdout_errno != 0 { st.plan.stdout_errno } else { EPIPE };
             return WriteAction::Fail(e);
         }
